@@ -1,4 +1,5 @@
 """C12 — gradient sources are positioned and coloured as constructed."""
+from fractions import Fraction
 from util import *
 from terms import fmt, subterms, Deps
 import shared
@@ -73,6 +74,27 @@ def r12_1(ctx):
         sb = ctx.body('<%s%s as raqote::blitter::Shader>::shade_span' % (BL, ty), R)
         san = ctx.an(sb)
         st = [(a2, v, pt) for a2, v, pt, kind in san.stores if kind == 'assign' and a2[0] == 'index' and strip_all(a2[1]) in (P(4), ('deref', P(4)))]
+        # the same walk written with an iterator: for pixel in dest[..count].iter_mut() { *pixel = ..; x += 1 }
+        it_form = False
+        if not st:
+            for a2, v, pt, kind in san.stores:
+                if kind != 'assign' or a2[0] != 'deref':
+                    continue
+                root = a2[1]
+                if not (root[0] == 'field' and root[4] == 'Some' and is_call(root[1], 'Iterator::next')):
+                    continue
+                D = Deps(san)
+                D.closure(root[1][2][0])
+                for x in D.visited:
+                    if is_call(x, 'iter_mut') and len(x[2]) == 1:
+                        sl = strip_all(x[2][0])
+                        while sl[0] in ('deref', 'ref'):
+                            sl = strip_all(sl[1])
+                        if is_call(sl, 'IndexMut::index_mut') and strip_all(sl[2][0]) in (P(4), ('deref', P(4)), ('ref', ('deref', P(4)))) and sl[2][1][0] == 'agg':
+                            f2 = dict(sl[2][1][4])
+                            if strip_all(f2.get('end', ('unknown',))) == P(5) and ('start' not in f2 or const_val(f2['start']) == 0):
+                                st.append((a2, v, pt))
+                                it_form = True
         ok = len(st) == 1
         if ok:
             a2, v, pt = st[0]
@@ -89,8 +111,9 @@ def r12_1(ctx):
                 if ok:
                     incs = [san.def_term(san.defs[i]) for i in xa[2]]
                     ok = any(t == P(2) for t in incs) and any(t[0] == 'bin' and t[1] == 'Add' and const_val(t[3]) == 1 for t in incs)
-                lv = dt.loop_vars(san, sb, Poly.leaf(P(5)))
-                ok = ok and nosite(a2[2]) in lv
+                if not it_form:
+                    lv = dt.loop_vars(san, sb, Poly.leaf(P(5)))
+                    ok = ok and nosite(a2[2]) in lv
         ctx.check(ok, R, key + '::shade_span', sb.loc(), 'dest[i] = gradient.%s(x+i, y, spread)' % ev.split('::')[-1],
                   '%s::shade_span does not store %s(self.gradient, x, y, self.spread) for consecutive x at row y into dest[0..count]' % (ty, ev))
         n += 1
@@ -208,7 +231,7 @@ def r12_3(ctx):
         p = strip_all(t[4][0][1])
         vg = variant_guards(ctx, b, bi)
         src_var = [vv for scr, adt, vv, sb in vg if strip_all(scr) in (('param', 2), ('deref', ('param', 2)))]
-        ok = src_var == [v] and p[0] == 'call' and an.callee_info(p[3])['def'] == BL + ty + '::new'
+        ok = src_var == [v] and p[0] == 'call' and p[1] == BL + ty + '::new'
         if ok:
             a = p[2]
             def pay(t2, k):
@@ -242,6 +265,70 @@ def r12_3(ctx):
                       'a Source::%s can leave choose_shader without its %s being built (blocks %s): some inputs (e.g. gradients with a single stop) take a shortcut that bypasses the gradient colour table — its premultiplication, alpha scaling and spread handling' % (v, table[v][0], pth))
 
 
+def r12_6(ctx):
+    """the sweep gradient's parameter is 0 at the start angle and 1 at the end angle.  Read across the crate boundary, in
+    the sw-composite version the analysed tree resolves to: Gradient::make_sweep_source stores (t_bias, t_scale) as
+    functions of (start_angle, end_angle) and SweepGradientSource::eval computes t from the angle fraction r with them;
+    after substitution T(r) must satisfy T(start/360) == 0 and T(end/360) == 1 (rational identities; the denominator
+    end - start is a free non-zero quantity)."""
+    import geomalg
+    from geomalg import VA, psubst, cancel_inv
+    R = 'R12.6'
+    d = ctx.dep('sw-composite', R)
+    mk = d.body('sw_composite::Gradient::make_sweep_source', R)
+    ev = d.body('sw_composite::SweepGradientSource::eval', R)
+    key = 'sw_composite::SweepGradientSource'
+    va = VA(d)
+    # constructor: the stored fields as rational functions of the angle parameters (MIR params: self=1, start=2, end=3)
+    aggs = [x for t in shared.ret_terms(d, mk) for x in subterms(t) if x[0] == 'agg' and (x[2] or '').endswith('SweepGradientSource')]
+    if not ctx.check(len(aggs) == 1, R, key + '|constructor', mk.loc(), 'SweepGradientSource literal found', 'cannot find the SweepGradientSource built by make_sweep_source (fail closed)'):
+        return
+    f = dict(aggs[0][4])
+    if not ctx.check('t_bias' in f and 't_scale' in f, R, key + '|fields', mk.loc(), 't_bias and t_scale stored', 'SweepGradientSource has no t_bias/t_scale fields (fail closed)'):
+        return
+    # evaluator: the term whose *255 is cast to the table index handed to apply_spread
+    an = d.an(ev)
+    tt = None
+    for bi, dd, ct in calls_in(d, ev):
+        if dd and dd.endswith('apply_spread') and ct[2]:
+            a = strip_all(ct[2][0])
+            while a[0] == 'cast':
+                a = strip_all(a[3])
+            if a[0] == 'bin' and a[1] == 'Mul':
+                k1, k2 = const_val(a[2]), const_val(a[3])
+                tt = a[2] if k2 == 255.0 else (a[3] if k1 == 255.0 else None)
+    if not ctx.check(tt is not None, R, key + '|eval t', ev.loc(), 't * 255 indexes the colour table', 'cannot find the gradient parameter t in SweepGradientSource::eval (fail closed)'):
+        return
+    pt = va.sp(tt)
+    fld = lambda n: [l for l in pt.leaves() if l[0] == 'field' and l[2] == n]
+    rs = [l for l in pt.leaves() if not (l[0] == 'field' and l[2] in ('t_bias', 't_scale'))]
+    if not ctx.check(len(fld('t_bias')) == 1 and len(fld('t_scale')) == 1 and len(rs) == 1, R, key + '|eval form', ev.loc(), 't is a function of the angle fraction, t_scale and t_bias',
+                     't in eval is %s: not a function of exactly the angle fraction, self.t_scale and self.t_bias (fail closed)' % pt.show(ev)[:200]):
+        return
+    r = rs[0]
+    a0, a1 = ('param', 2), ('param', 3)
+    S, B = va.sp(f['t_scale']), va.sp(f['t_bias'])
+    # eliminate end_angle: end = start + 360*D with D = (end - start)/360 a fresh non-zero leaf, so that 1/(t1 - t0) = inv(D)
+    Dl = ('D',)
+    elim = {a1: Poly.leaf(a0) + Poly.const(360) * Poly.leaf(Dl)}
+    def norm(p):
+        p = psubst(p, elim)
+        m = {}
+        for l in p.leaves():
+            if l[0] == 'inv' and psubst(va.sp(l[1]), elim) == Poly.leaf(Dl):
+                m[l] = Poly.leaf(('inv', Dl))
+        return cancel_inv(psubst(p, m))
+    def T(at):
+        return norm(psubst(pt, {fld('t_scale')[0]: S, fld('t_bias')[0]: B, r: at}))
+    t0 = Poly.leaf(a0) * Poly.const(Fraction(1, 360))
+    t1 = Poly.leaf(a1) * Poly.const(Fraction(1, 360))
+    T0, T1 = T(t0), T(t1)
+    ctx.check(norm(T1 - T0) == Poly.const(1), R, key + '|span', ev.loc(), 't(end) - t(start) = 1', 't(end angle) - t(start angle) is %s, expected 1: the colour ramp does not span start..end' % norm(T1 - T0).show(ev)[:160])
+    ctx.check(T0 == Poly.const(0), R, key + '|t(start) = 0', ev.loc(), 't(start angle) = 0',
+              'sweep gradient: at the start angle the parameter is t = %s, expected 0 (eval computes r*t_scale - t_bias with t_bias = %s and t_scale = %s, i.e. r/(t1 - t0) + t0 instead of (r - t0)/(t1 - t0)): every sweep gradient whose start angle is not 0 is rotated/offset against its definition (e.g. start 90, end 270: the ray at 90 degrees shows t = 0.75 instead of the first stop)'
+              % (T0.show(ev)[:120], fmt(mk, f['t_bias'])[:60], fmt(mk, f['t_scale'])[:80]))
+
+
 def _r18_1b(ctx):
     import props.c18 as c18
     c18.r18_1b(ctx)
@@ -252,4 +339,4 @@ _r18_1b.__name__ = 'r18_1b'
 
 def run(ctx):
     import engine
-    engine.run_rules(ctx, [r12_1, r12_2, r12_3, dt.r03_5, dt.r02_6, _r18_1b])
+    engine.run_rules(ctx, [r12_1, r12_2, r12_3, r12_6, dt.r03_5, dt.r02_6, _r18_1b])
